@@ -32,6 +32,14 @@ func genC14(seed uint64) *Scenario {
 		cfg.Jitter = p / 4
 		cfg.StallProb = 40 + uint32(r.n(100))
 		cfg.StallMax = p * int64(1+r.n(20))
+		if r.chance(2, 3) {
+			// tasks (callers and the clock goroutine alike) are descheduled for a while at sync points
+			cfg.SyncStallProb = 8 + uint32(r.n(60))
+			cfg.SyncStallMax = p/2 + r.i64(4*p)
+			if r.chance(1, 2) {
+				cfg.StallProb = 0
+			}
+		}
 	default:
 		sc.Mode = "adversarial"
 		cfg.Policy = vsim.Adversarial
@@ -72,6 +80,7 @@ func genC14(seed uint64) *Scenario {
 		}
 		cl := Client{Cost: cost}
 		lastD := p * 10
+		lastHeavy := false
 		for ph := 0; ph < nphases; ph++ {
 			n := 1 + r.n(4)
 			if nphases == 1 {
@@ -82,6 +91,7 @@ func genC14(seed uint64) *Scenario {
 				if lockstep && k == 0 {
 					x = []int{0, 0, 0, 1, 4, 5}[r.n(6)] // the call right behind the barrier is a timed one
 				}
+			again:
 				switch {
 				case x < 4: // catastrophic timed call
 					f := catastrophic[r.n(len(catastrophic))]
@@ -101,7 +111,7 @@ func genC14(seed uint64) *Scenario {
 						continue // not catastrophic on this tree: not a subject of this property
 					}
 					cl.Ops = append(cl.Ops, op)
-					lastD = d
+					lastD, lastHeavy = d, true
 				case x < 6: // quick timed call
 					f := quickTimed[r.n(len(quickTimed))]
 					op := Op{Kind: heavyKinds[r.n(len(heavyKinds))], Re: addRe(sc, ReSpec{Pat: f.Pat, Opts: f.Opts, Private: c + 1}), In: f.In, N: -1, Repl: "<$0>"}
@@ -113,15 +123,27 @@ func genC14(seed uint64) *Scenario {
 					d := 2*p + 8*int64(ncl)*v.steps*maxC + r.i64(100*p)
 					op.TimeoutNs = d
 					cl.Ops = append(cl.Ops, op)
-					lastD = d
+					lastD, lastHeavy = d, false
 				case x < 7: // untimed call
 					f := quickTimed[r.n(len(quickTimed))]
 					op := Op{Kind: heavyKinds[r.n(len(heavyKinds))], Re: addRe(sc, ReSpec{Pat: f.Pat, Opts: f.Opts, Private: c + 1}), In: f.In, TimeoutNs: -1, N: -1, Repl: "<$0>"}
 					cl.Ops = append(cl.Ops, op)
 				default: // idle gap around the clock's shutdown slop
 					s := int64(time.Second)
-					idles := []int64{lastD / 2, lastD + s - p, lastD + s, lastD + s + 3*p, 2 * (lastD + s), 10 * (lastD + s), int64(time.Hour), p / 2, 3 * p}
+					// when the clock goroutine exits, measured from the end of the previous timed call: a call
+					// that ran into its deadline ends at about the deadline (exit ~1s + a tick or two later),
+					// a quick one ends at once (exit ~d + p + 1s later)
+					base := s
+					if !lastHeavy {
+						base = lastD + p + s
+					}
+					idles := []int64{lastD / 2, base - p, base, base + 3*p, 2 * (lastD + s), 10 * (lastD + s), int64(time.Hour), p / 2, 3 * p,
+						base - p/2 + r.i64(3*p), base - p/2 + r.i64(3*p), base - p/2 + r.i64(3*p), base + r.i64(p)}
 					cl.Ops = append(cl.Ops, Op{Kind: OpIdle, IdleNs: idles[r.n(len(idles))]})
+					if r.chance(1, 2) {
+						x = []int{0, 0, 4}[r.n(3)] // mostly a timed call right after the gap
+						goto again
+					}
 				}
 			}
 			if lockstep && ph < nphases-1 && phaseIdle[ph] > 0 {
